@@ -158,7 +158,11 @@ func (v *SortValue) Less(compareValue *SortValue) ternary.Value {
 		}
 
 		if v.SerializedKey.Bytes()[1] == 83 && compareValue.SerializedKey.Bytes()[1] == 83 {
-			return ternary.ConvertFromBool(v.String < compareValue.String)
+			if v.String != compareValue.String {
+				return ternary.ConvertFromBool(v.String < compareValue.String)
+			}
+			// Texts that differ only in letter case or blanks are not identical: keep them apart in a fixed order.
+			return ternary.ConvertFromBool(bytes.Compare(v.SerializedKey.Bytes(), compareValue.SerializedKey.Bytes()) < 0)
 		}
 	}
 
